@@ -132,46 +132,82 @@ def pad2_66 : List K → List K
   | [x0_0, x0_1, x0_2, x0_3, x1_0, x1_1, x1_2, x1_3, x2_0, x2_1, x2_2, x2_3, x3_0, x3_1, x3_2, x3_3] =>
     [x0_0, x0_1, x0_2, x0_3, 0, 0, x1_0, x1_1, x1_2, x1_3, 0, 0, x2_0, x2_1, x2_2, x2_3, 0, 0, x3_0, x3_1, x3_2, x3_3, 0, 0, 0, 0, 0, 0, 0, 0, 0, 0, 0, 0, 0, 0]
   | _ => []
+theorem pad2_66_eq (x0_0 x0_1 x0_2 x0_3 x1_0 x1_1 x1_2 x1_3 x2_0 x2_1 x2_2 x2_3 x3_0 x3_1 x3_2 x3_3 : K) :
+    pad2_66 [x0_0, x0_1, x0_2, x0_3, x1_0, x1_1, x1_2, x1_3, x2_0, x2_1, x2_2, x2_3, x3_0, x3_1, x3_2, x3_3] =
+    [x0_0, x0_1, x0_2, x0_3, 0, 0, x1_0, x1_1, x1_2, x1_3, 0, 0, x2_0, x2_1, x2_2, x2_3, 0, 0, x3_0, x3_1, x3_2, x3_3, 0, 0, 0, 0, 0, 0, 0, 0, 0, 0, 0, 0, 0, 0] := rfl
 def pad1_66 : List K → List K
   | [x0_0, x0_1, x0_2, x1_0, x1_1, x1_2, x2_0, x2_1, x2_2] =>
     [x0_0, x0_1, x0_2, 0, 0, 0, x1_0, x1_1, x1_2, 0, 0, 0, x2_0, x2_1, x2_2, 0, 0, 0, 0, 0, 0, 0, 0, 0, 0, 0, 0, 0, 0, 0, 0, 0, 0, 0, 0, 0]
   | _ => []
+theorem pad1_66_eq (x0_0 x0_1 x0_2 x1_0 x1_1 x1_2 x2_0 x2_1 x2_2 : K) :
+    pad1_66 [x0_0, x0_1, x0_2, x1_0, x1_1, x1_2, x2_0, x2_1, x2_2] =
+    [x0_0, x0_1, x0_2, 0, 0, 0, x1_0, x1_1, x1_2, 0, 0, 0, x2_0, x2_1, x2_2, 0, 0, 0, 0, 0, 0, 0, 0, 0, 0, 0, 0, 0, 0, 0, 0, 0, 0, 0, 0, 0] := rfl
 def pad2_99 : List K → List K
   | [x0_0, x0_1, x0_2, x0_3, x0_4, x1_0, x1_1, x1_2, x1_3, x1_4, x2_0, x2_1, x2_2, x2_3, x2_4, x3_0, x3_1, x3_2, x3_3, x3_4, x4_0, x4_1, x4_2, x4_3, x4_4] =>
     [x0_0, x0_1, x0_2, x0_3, x0_4, 0, 0, 0, 0, x1_0, x1_1, x1_2, x1_3, x1_4, 0, 0, 0, 0, x2_0, x2_1, x2_2, x2_3, x2_4, 0, 0, 0, 0, x3_0, x3_1, x3_2, x3_3, x3_4, 0, 0, 0, 0, x4_0, x4_1, x4_2, x4_3, x4_4, 0, 0, 0, 0, 0, 0, 0, 0, 0, 0, 0, 0, 0, 0, 0, 0, 0, 0, 0, 0, 0, 0, 0, 0, 0, 0, 0, 0, 0, 0, 0, 0, 0, 0, 0, 0, 0, 0, 0, 0]
   | _ => []
+theorem pad2_99_eq (x0_0 x0_1 x0_2 x0_3 x0_4 x1_0 x1_1 x1_2 x1_3 x1_4 x2_0 x2_1 x2_2 x2_3 x2_4 x3_0 x3_1 x3_2 x3_3 x3_4 x4_0 x4_1 x4_2 x4_3 x4_4 : K) :
+    pad2_99 [x0_0, x0_1, x0_2, x0_3, x0_4, x1_0, x1_1, x1_2, x1_3, x1_4, x2_0, x2_1, x2_2, x2_3, x2_4, x3_0, x3_1, x3_2, x3_3, x3_4, x4_0, x4_1, x4_2, x4_3, x4_4] =
+    [x0_0, x0_1, x0_2, x0_3, x0_4, 0, 0, 0, 0, x1_0, x1_1, x1_2, x1_3, x1_4, 0, 0, 0, 0, x2_0, x2_1, x2_2, x2_3, x2_4, 0, 0, 0, 0, x3_0, x3_1, x3_2, x3_3, x3_4, 0, 0, 0, 0, x4_0, x4_1, x4_2, x4_3, x4_4, 0, 0, 0, 0, 0, 0, 0, 0, 0, 0, 0, 0, 0, 0, 0, 0, 0, 0, 0, 0, 0, 0, 0, 0, 0, 0, 0, 0, 0, 0, 0, 0, 0, 0, 0, 0, 0, 0, 0, 0] := rfl
 def pad1_99 : List K → List K
   | [x0_0, x0_1, x0_2, x1_0, x1_1, x1_2, x2_0, x2_1, x2_2] =>
     [x0_0, x0_1, x0_2, 0, 0, 0, 0, 0, 0, x1_0, x1_1, x1_2, 0, 0, 0, 0, 0, 0, x2_0, x2_1, x2_2, 0, 0, 0, 0, 0, 0, 0, 0, 0, 0, 0, 0, 0, 0, 0, 0, 0, 0, 0, 0, 0, 0, 0, 0, 0, 0, 0, 0, 0, 0, 0, 0, 0, 0, 0, 0, 0, 0, 0, 0, 0, 0, 0, 0, 0, 0, 0, 0, 0, 0, 0, 0, 0, 0, 0, 0, 0, 0, 0, 0]
   | _ => []
+theorem pad1_99_eq (x0_0 x0_1 x0_2 x1_0 x1_1 x1_2 x2_0 x2_1 x2_2 : K) :
+    pad1_99 [x0_0, x0_1, x0_2, x1_0, x1_1, x1_2, x2_0, x2_1, x2_2] =
+    [x0_0, x0_1, x0_2, 0, 0, 0, 0, 0, 0, x1_0, x1_1, x1_2, 0, 0, 0, 0, 0, 0, x2_0, x2_1, x2_2, 0, 0, 0, 0, 0, 0, 0, 0, 0, 0, 0, 0, 0, 0, 0, 0, 0, 0, 0, 0, 0, 0, 0, 0, 0, 0, 0, 0, 0, 0, 0, 0, 0, 0, 0, 0, 0, 0, 0, 0, 0, 0, 0, 0, 0, 0, 0, 0, 0, 0, 0, 0, 0, 0, 0, 0, 0, 0, 0, 0] := rfl
 def pad2_69 : List K → List K
   | [x0_0, x0_1, x0_2, x0_3, x0_4, x1_0, x1_1, x1_2, x1_3, x1_4, x2_0, x2_1, x2_2, x2_3, x2_4, x3_0, x3_1, x3_2, x3_3, x3_4] =>
     [x0_0, x0_1, x0_2, x0_3, x0_4, 0, 0, 0, 0, x1_0, x1_1, x1_2, x1_3, x1_4, 0, 0, 0, 0, x2_0, x2_1, x2_2, x2_3, x2_4, 0, 0, 0, 0, x3_0, x3_1, x3_2, x3_3, x3_4, 0, 0, 0, 0, 0, 0, 0, 0, 0, 0, 0, 0, 0, 0, 0, 0, 0, 0, 0, 0, 0, 0]
   | _ => []
+theorem pad2_69_eq (x0_0 x0_1 x0_2 x0_3 x0_4 x1_0 x1_1 x1_2 x1_3 x1_4 x2_0 x2_1 x2_2 x2_3 x2_4 x3_0 x3_1 x3_2 x3_3 x3_4 : K) :
+    pad2_69 [x0_0, x0_1, x0_2, x0_3, x0_4, x1_0, x1_1, x1_2, x1_3, x1_4, x2_0, x2_1, x2_2, x2_3, x2_4, x3_0, x3_1, x3_2, x3_3, x3_4] =
+    [x0_0, x0_1, x0_2, x0_3, x0_4, 0, 0, 0, 0, x1_0, x1_1, x1_2, x1_3, x1_4, 0, 0, 0, 0, x2_0, x2_1, x2_2, x2_3, x2_4, 0, 0, 0, 0, x3_0, x3_1, x3_2, x3_3, x3_4, 0, 0, 0, 0, 0, 0, 0, 0, 0, 0, 0, 0, 0, 0, 0, 0, 0, 0, 0, 0, 0, 0] := rfl
 def pad1_69 : List K → List K
   | [x0_0, x0_1, x0_2, x1_0, x1_1, x1_2, x2_0, x2_1, x2_2] =>
     [x0_0, x0_1, x0_2, 0, 0, 0, 0, 0, 0, x1_0, x1_1, x1_2, 0, 0, 0, 0, 0, 0, x2_0, x2_1, x2_2, 0, 0, 0, 0, 0, 0, 0, 0, 0, 0, 0, 0, 0, 0, 0, 0, 0, 0, 0, 0, 0, 0, 0, 0, 0, 0, 0, 0, 0, 0, 0, 0, 0]
   | _ => []
+theorem pad1_69_eq (x0_0 x0_1 x0_2 x1_0 x1_1 x1_2 x2_0 x2_1 x2_2 : K) :
+    pad1_69 [x0_0, x0_1, x0_2, x1_0, x1_1, x1_2, x2_0, x2_1, x2_2] =
+    [x0_0, x0_1, x0_2, 0, 0, 0, 0, 0, 0, x1_0, x1_1, x1_2, 0, 0, 0, 0, 0, 0, x2_0, x2_1, x2_2, 0, 0, 0, 0, 0, 0, 0, 0, 0, 0, 0, 0, 0, 0, 0, 0, 0, 0, 0, 0, 0, 0, 0, 0, 0, 0, 0, 0, 0, 0, 0, 0, 0] := rfl
 def pad2_96 : List K → List K
   | [x0_0, x0_1, x0_2, x0_3, x1_0, x1_1, x1_2, x1_3, x2_0, x2_1, x2_2, x2_3, x3_0, x3_1, x3_2, x3_3, x4_0, x4_1, x4_2, x4_3] =>
     [x0_0, x0_1, x0_2, x0_3, 0, 0, x1_0, x1_1, x1_2, x1_3, 0, 0, x2_0, x2_1, x2_2, x2_3, 0, 0, x3_0, x3_1, x3_2, x3_3, 0, 0, x4_0, x4_1, x4_2, x4_3, 0, 0, 0, 0, 0, 0, 0, 0, 0, 0, 0, 0, 0, 0, 0, 0, 0, 0, 0, 0, 0, 0, 0, 0, 0, 0]
   | _ => []
+theorem pad2_96_eq (x0_0 x0_1 x0_2 x0_3 x1_0 x1_1 x1_2 x1_3 x2_0 x2_1 x2_2 x2_3 x3_0 x3_1 x3_2 x3_3 x4_0 x4_1 x4_2 x4_3 : K) :
+    pad2_96 [x0_0, x0_1, x0_2, x0_3, x1_0, x1_1, x1_2, x1_3, x2_0, x2_1, x2_2, x2_3, x3_0, x3_1, x3_2, x3_3, x4_0, x4_1, x4_2, x4_3] =
+    [x0_0, x0_1, x0_2, x0_3, 0, 0, x1_0, x1_1, x1_2, x1_3, 0, 0, x2_0, x2_1, x2_2, x2_3, 0, 0, x3_0, x3_1, x3_2, x3_3, 0, 0, x4_0, x4_1, x4_2, x4_3, 0, 0, 0, 0, 0, 0, 0, 0, 0, 0, 0, 0, 0, 0, 0, 0, 0, 0, 0, 0, 0, 0, 0, 0, 0, 0] := rfl
 def pad1_96 : List K → List K
   | [x0_0, x0_1, x0_2, x1_0, x1_1, x1_2, x2_0, x2_1, x2_2] =>
     [x0_0, x0_1, x0_2, 0, 0, 0, x1_0, x1_1, x1_2, 0, 0, 0, x2_0, x2_1, x2_2, 0, 0, 0, 0, 0, 0, 0, 0, 0, 0, 0, 0, 0, 0, 0, 0, 0, 0, 0, 0, 0, 0, 0, 0, 0, 0, 0, 0, 0, 0, 0, 0, 0, 0, 0, 0, 0, 0, 0]
   | _ => []
+theorem pad1_96_eq (x0_0 x0_1 x0_2 x1_0 x1_1 x1_2 x2_0 x2_1 x2_2 : K) :
+    pad1_96 [x0_0, x0_1, x0_2, x1_0, x1_1, x1_2, x2_0, x2_1, x2_2] =
+    [x0_0, x0_1, x0_2, 0, 0, 0, x1_0, x1_1, x1_2, 0, 0, 0, x2_0, x2_1, x2_2, 0, 0, 0, 0, 0, 0, 0, 0, 0, 0, 0, 0, 0, 0, 0, 0, 0, 0, 0, 0, 0, 0, 0, 0, 0, 0, 0, 0, 0, 0, 0, 0, 0, 0, 0, 0, 0, 0, 0] := rfl
 def pad2_6 : List K → List K
   | [x0, x1, x2, x3] => [x0, x1, x2, x3, 0, 0]
   | _ => []
+theorem pad2_6_eq (x0 x1 x2 x3 : K) :
+    pad2_6 [x0, x1, x2, x3] =
+    [x0, x1, x2, x3, 0, 0] := rfl
 def pad1_6 : List K → List K
   | [x0, x1, x2] => [x0, x1, x2, 0, 0, 0]
   | _ => []
+theorem pad1_6_eq (x0 x1 x2 : K) :
+    pad1_6 [x0, x1, x2] =
+    [x0, x1, x2, 0, 0, 0] := rfl
 def pad2_9 : List K → List K
   | [x0, x1, x2, x3, x4] => [x0, x1, x2, x3, x4, 0, 0, 0, 0]
   | _ => []
+theorem pad2_9_eq (x0 x1 x2 x3 x4 : K) :
+    pad2_9 [x0, x1, x2, x3, x4] =
+    [x0, x1, x2, x3, x4, 0, 0, 0, 0] := rfl
 def pad1_9 : List K → List K
   | [x0, x1, x2] => [x0, x1, x2, 0, 0, 0, 0, 0, 0]
   | _ => []
+theorem pad1_9_eq (x0 x1 x2 : K) :
+    pad1_9 [x0, x1, x2] =
+    [x0, x1, x2, 0, 0, 0, 0, 0, 0] := rfl
 
 
 /-! ### operations in index notation -/
@@ -283,13 +319,5 @@ macro_rules
 definition to another one): `vecOf l I = l[I]`, `matOf p l I J = l[I * p + J]`. -/
 def vecOf {n : Nat} (l : List K) : Fin n → K := fun I => l.getD I.val 0
 def matOf {n : Nat} (p : Nat) (l : List K) : Fin n → Fin p → K := fun I J => l.getD (I.val * p + J.val) 0
-
-/- (performance only) forces the equation lemmas of the pattern-matching definitions of this file into
-its `.olean`, so that the property modules do not regenerate them in every theorem -/
-set_option linter.all false in
-example (x y : K) (h : x = y) : x = y := by
-  (try simp only [pad2_66, pad1_66, pad2_99, pad1_99, pad2_69, pad1_69, pad2_96, pad1_96, pad2_6, pad1_6, pad2_9,
-    pad1_9, mS2, mS1, mT2, mT1, T2.ofM3, T2.plane, vi, ti, pS1, pS2, pT1, pT2, w, iw, w2, iw2, shear, delta] at h)
-  exact h
 
 end TfelVerif.C02
